@@ -274,7 +274,7 @@ func Check(env *core.Env, rep *core.Report) *core.Result {
 	if thorough {
 		nBin = 600
 	}
-	composeInfo := ComposeCheck(env, rep, nBin, "n2", "nest3", "nest3_pinned", "+n3")
+	composeInfo := ComposeCheck(env, rep, nBin, "n2", "nest3", "nest3_pinned", "nest3_errlate", "+n3")
 	if a, ok := composeInfo["accepted"].(int); ok {
 		validated += a
 	}
